@@ -115,6 +115,216 @@ fn obs_case(run: &mut Run, pocket: u64, public: u64, lines: bool, dist: &mut Dis
     }
 }
 
+
+// ---------------------------------------------------------------------------------------------
+// decode SEQUENCES: the decoders are asked in adversarial orders (parent then every child, children
+// before parents, values differing in one byte only, the same code twice, interleaved with the other
+// codecs), on the main thread and on several threads at once.  Every answer is predicted by the pure
+// model (one line each) and judged by the round-trip oracle on its own: a decoder that remembers
+// anything about an earlier call shows up here.
+#[derive(Clone)]
+enum Step {
+    Obs(u64, u64),          // Observation::from(i64::from(obs)) == obs
+    ObsIso(u64, u64),       // the same through Isomorphism::from(i64)
+    ObsStreet(u64, u64),    // Street::from(code) == street by board size
+    Act(Action),
+    PathE(Vec<Edge>),
+    PathI(Vec<Edge>),       // through the i64 form
+    Abs(usize, usize),
+    AbsI(usize, usize),
+    Edge8(Edge),
+    Edge64(Edge),
+}
+struct Outcome {
+    op: String,
+    answer: String,
+    fail: Option<(String, String, String, String)>,
+}
+fn exec(step: &Step) -> Outcome {
+    let bad = |class: &str, input: String, exp: String, got: String| Some((class.to_string(), input, exp, got));
+    match step.clone() {
+        Step::Obs(p, b) | Step::ObsIso(p, b) => {
+            let o = Observation::from((Hand::from(p), Hand::from(b)));
+            let code = i64::from(o);
+            let iso = matches!(step, Step::ObsIso(..));
+            let back = if iso {
+                catch(move || Observation::from(robopoker::cards::isomorphism::Isomorphism::from(code)))
+            } else {
+                catch(move || Observation::from(code))
+            };
+            let answer = opt(back.map(|x| format!("{} {}", u64::from(*x.pocket()), u64::from(*x.public()))));
+            let fail = if back == Some(o) { None } else { bad("observation-roundtrip-in-sequence", format!("obs pocket={p} public={b} code={code}{}", if iso { " (via Isomorphism::from(i64))" } else { "" }), format!("{p} {b}"), answer.clone()) };
+            Outcome { op: format!("dec-obs {code}"), answer, fail }
+        }
+        Step::ObsStreet(p, b) => {
+            let o = Observation::from((Hand::from(p), Hand::from(b)));
+            let code = i64::from(o);
+            let st = catch(move || street_no(Street::from(code)));
+            let want = street_by_board(b.count_ones());
+            let answer = opt(st.map(|x| x.to_string()));
+            let fail = if st.is_some() && st == want { None } else { bad("street-from-observation-code", format!("obs pocket={p} public={b}"), format!("{want:?}"), answer.clone()) };
+            Outcome { op: format!("street-obs {code}"), answer, fail }
+        }
+        Step::Act(a) => {
+            let code = u32::from(a);
+            let back = catch(move || Action::from(code));
+            let answer = opt(back.map(|x| show_action(&x)));
+            let fail = if back == Some(a) { None } else { bad("action-roundtrip-in-sequence", show_action(&a), show_action(&a), answer.clone()) };
+            Outcome { op: format!("dec-action {code}"), answer, fail }
+        }
+        Step::PathE(l) => {
+            let code = u64::from(Path::from(l.clone()));
+            let back = catch(move || Vec::<Edge>::from(Path::from(code)));
+            let answer = opt(back.clone().map(|x| show_edges(&x)));
+            let fail = if back.as_ref() == Some(&l) { None } else { bad("path-roundtrip-in-sequence", show_edges(&l), show_edges(&l), answer.clone()) };
+            Outcome { op: format!("dec-path {code}"), answer, fail }
+        }
+        Step::PathI(l) => {
+            let code = u64::from(Path::from(l.clone()));
+            let i = i64::from(Path::from(code));
+            let back = catch(move || u64::from(Path::from(i)));
+            let answer = opt(back.map(|x| x.to_string()));
+            let fail = if back == Some(code) { None } else { bad("path-i64-roundtrip-in-sequence", show_edges(&l), code.to_string(), answer.clone()) };
+            Outcome { op: format!("path-of-i64 {i}"), answer, fail }
+        }
+        Step::Abs(s, i) | Step::AbsI(s, i) => {
+            let ab = Abstraction::from((street_of(s), i));
+            let via_i = matches!(step, Step::AbsI(..));
+            let n = u64::from(ab);
+            let iv = i64::from(ab);
+            let back = if via_i { catch(move || Abstraction::from(iv)) } else { catch(move || Abstraction::from(n)) };
+            let st = back.and_then(|b| catch(move || street_no(b.street())));
+            let answer = if via_i {
+                opt(back.map(|b| format!("{} {}", show_abs(&b), opt(st.map(|x| x.to_string())))))
+            } else {
+                opt(back.map(|b| format!("{} {} {}", show_abs(&b), opt(st.map(|x| x.to_string())), b.index())))
+            };
+            let fail = if back == Some(ab) && st == Some(s) { None } else { bad("abstraction-roundtrip-in-sequence", format!("abs {s} {i}"), show_abs(&ab), answer.clone()) };
+            Outcome { op: if via_i { format!("abs-of-i64 {iv}") } else { format!("dec-abs {n}") }, answer, fail }
+        }
+        Step::Edge8(e) => {
+            let c = u8::from(e);
+            let back = catch(move || Edge::from(c));
+            let answer = opt(back.map(|x| show_edge(&x)));
+            let fail = if back == Some(e) { None } else { bad("edge-u8-roundtrip-in-sequence", show_edge(&e), show_edge(&e), answer.clone()) };
+            Outcome { op: format!("dec-edge8 {c}"), answer, fail }
+        }
+        Step::Edge64(e) => {
+            let c = u64::from(e);
+            let back = catch(move || Edge::from(c));
+            let answer = opt(back.map(|x| show_edge(&x)));
+            let fail = if back == Some(e) { None } else { bad("edge-u64-roundtrip-in-sequence", show_edge(&e), show_edge(&e), answer.clone()) };
+            Outcome { op: format!("dec-edge64 {c}"), answer, fail }
+        }
+    }
+}
+
+/// observation families around one (pocket, 4-card board): the turn, its river children in every
+/// order that matters, its flop parents, rivers that differ in the lowest board card only
+fn obs_family(rng: &mut Rng, full: u64, out: &mut Vec<Step>) {
+    let p = rng.cards(2, full);
+    // keep room below the board now and then, so that many river cards are lower than all turn cards
+    let cut = 8 + rng.below(30);
+    let b4 = if rng.chance(1, 2) { rng.cards(4, full & !p & !((1u64 << cut) - 1)) } else { rng.cards(4, full & !p) };
+    if b4.count_ones() != 4 { return; }
+    let free: Vec<u64> = (0..52).filter(|c| (p | b4) >> c & 1 == 0 && full >> c & 1 == 1).map(|c| 1u64 << c).collect();
+    let extra = |rng: &mut Rng, out: &mut Vec<Step>, pp: u64, bb: u64| {
+        match rng.below(6) { 0 => out.push(Step::ObsStreet(pp, bb)), 1 => out.push(Step::ObsIso(pp, bb)), _ => {} }
+    };
+    // parent, then every child (lowest new card first)
+    out.push(Step::Obs(p, b4));
+    for c in &free { out.push(Step::Obs(p, b4 | c)); extra(rng, out, p, b4 | c); }
+    // children before the parent, alternating; every code twice
+    for c in free.iter().rev() { out.push(Step::Obs(p, b4 | c)); out.push(Step::Obs(p, b4)); out.push(Step::Obs(p, b4 | c)); out.push(Step::Obs(p, b4 | c)); }
+    // river after river sharing the four highest board cards (only the lowest differs)
+    let lowest_board = b4.trailing_zeros();
+    let lows: Vec<u64> = free.iter().copied().filter(|c| c.trailing_zeros() < lowest_board).collect();
+    for c in &lows { out.push(Step::Obs(p, b4 | c)); }
+    for c in lows.iter().rev() { out.push(Step::ObsIso(p, b4 | c)); out.push(Step::ObsStreet(p, b4 | c)); }
+    // flop parents and their turn children; other pockets on the same board
+    for drop in 0..52u64 {
+        if b4 >> drop & 1 == 1 {
+            let f = b4 & !(1 << drop);
+            out.push(Step::Obs(p, f));
+            out.push(Step::Obs(p, b4));
+            out.push(Step::Obs(p, f));
+        }
+    }
+    for _ in 0..3 {
+        let q = rng.cards(2, full & !b4);
+        out.push(Step::Obs(q, b4));
+        out.push(Step::Obs(q, 0));
+        if let Some(c) = free.iter().find(|c| q & **c == 0) { out.push(Step::Obs(q, b4 | c)); }
+    }
+}
+
+fn other_families(rng: &mut Rng, full: u64, edges: &[Edge], counts: &[usize; 4], out: &mut Vec<Step>) {
+    // actions: same amount under every kind, neighbours, draws sharing their two highest cards
+    let x = rng.range(i16::MIN as i64, i16::MAX as i64) as i16;
+    for d in [0i16, 1, -1, 256, -256] {
+        let y = x.wrapping_add(d);
+        for a in [Action::Call(y), Action::Raise(y), Action::Shove(y), Action::Blind(y), Action::Call(y)] { out.push(Step::Act(a)); }
+    }
+    let hi = rng.cards(2, full & !0xFFFF);
+    for c in 0..16u64 { if full >> c & 1 == 1 { out.push(Step::Act(Action::Draw(Hand::from(hi | 1 << c)))); out.push(Step::Act(Action::Draw(Hand::from(hi)))); } }
+    out.push(Step::Act(Action::Fold)); out.push(Step::Act(Action::Check)); out.push(Step::Act(Action::Draw(Hand::from(0u64))));
+    // paths: a path, its extensions, its prefixes, one edge changed at either end; twice; through i64
+    let n = rng.below(16) as usize;
+    let base: Vec<Edge> = (0..n).map(|_| edges[rng.below(15) as usize]).collect();
+    let mut fam: Vec<Vec<Edge>> = vec![base.clone()];
+    for e in edges { let mut l = base.clone(); l.push(*e); fam.push(l); }
+    for k in 0..=n { fam.push(base[..k].to_vec()); }
+    if n > 0 { for e in edges { let mut l = base.clone(); l[0] = *e; fam.push(l); let mut l = base.clone(); l[n - 1] = *e; fam.push(l); } }
+    for l in &fam { out.push(Step::PathE(l.clone())); out.push(Step::PathE(base.clone())); if rng.chance(1, 3) { out.push(Step::PathI(l.clone())); } }
+    for l in fam.iter().rev() { out.push(Step::PathE(l.clone())); out.push(Step::PathE(l.clone())); }
+    // abstractions: the same index on every street, neighbouring indices, both integer forms
+    let i = rng.below(101) as usize;
+    for s in 0..4usize { for j in [i, i + 1, i, (i + 64) % counts[s], i] { let j = j % counts[s]; out.push(Step::Abs(s, j)); out.push(Step::AbsI(s, j)); } }
+    // edges in a random order, repeated
+    for _ in 0..20 { let e = edges[rng.below(15) as usize]; out.push(Step::Edge8(e)); out.push(Step::Edge64(e)); out.push(Step::Edge8(e)); }
+}
+
+fn sequences(seed: u64, nfam: usize, full: u64, edges: &[Edge], counts: &[usize; 4], shuffle_blocks: bool) -> Vec<Step> {
+    let mut rng = Rng::new(seed);
+    let mut blocks: Vec<Vec<Step>> = vec![];
+    for _ in 0..nfam {
+        let mut b = vec![];
+        obs_family(&mut rng, full, &mut b);
+        blocks.push(b);
+        let mut b = vec![];
+        other_families(&mut rng, full, edges, counts, &mut b);
+        blocks.push(b);
+    }
+    if shuffle_blocks {
+        // interleave: cut the blocks into short runs and deal them round-robin
+        let mut out = vec![];
+        let mut cursors = vec![0usize; blocks.len()];
+        let mut live: Vec<usize> = (0..blocks.len()).collect();
+        while !live.is_empty() {
+            let k = rng.below(live.len() as u64) as usize;
+            let b = live[k];
+            let run = 1 + rng.below(4) as usize;
+            for _ in 0..run {
+                if cursors[b] < blocks[b].len() { out.push(blocks[b][cursors[b]].clone()); cursors[b] += 1; }
+            }
+            if cursors[b] >= blocks[b].len() { live.swap_remove(k); }
+        }
+        out
+    } else {
+        blocks.into_iter().flatten().collect()
+    }
+}
+
+fn absorb(run: &mut Run, outs: Vec<Outcome>, tag: &str) {
+    for o in outs {
+        run.evaluations += 1;
+        run.spec_checked += 1;
+        run.line(&o.op, &o.answer);
+        if let Some((class, input, exp, got)) = o.fail { run.fail(&class, &format!("{input} [{tag}]"), &exp, &got); }
+        run.count(&format!("sequence:{tag}"));
+    }
+}
+
 fn main() {
     let a = args();
     let mut rng = Rng::new(a.seed);
@@ -500,6 +710,34 @@ fn main() {
         }
     }
 
+    // ------------------------------------------------------------ decode sequences (one thread, then several)
+    {
+        let counts = [169usize, robopoker::verif::KMEANS_FLOP_CLUSTER_COUNT, robopoker::verif::KMEANS_TURN_CLUSTER_COUNT, robopoker::verif::KMEANS_EQTY_CLUSTER_COUNT];
+        let nfam = if deep { 1500 } else { 120 };
+        let ordered = sequences(a.seed ^ 0xA5A5, nfam, full, &edges, &counts, false);
+        let outs: Vec<Outcome> = ordered.iter().map(exec).collect();
+        absorb(&mut run, outs, "one-thread,family-order");
+        let mixed = sequences(a.seed ^ 0x5A5A, nfam, full, &edges, &counts, true);
+        let outs: Vec<Outcome> = mixed.iter().map(exec).collect();
+        absorb(&mut run, outs, "one-thread,interleaved");
+        let nthreads = 6u64;
+        let handles: Vec<std::thread::JoinHandle<Vec<Outcome>>> = (0..nthreads).map(|t| {
+            let edges = edges.clone();
+            let seed = a.seed;
+            std::thread::spawn(move || {
+                // threads 0 and 1 run the SAME sequence, the others their own
+                let sq = sequences(seed ^ (0x7000 + if t < 2 { 0 } else { t }), nfam / 3 + 1, full, &edges, &counts, t % 2 == 1);
+                sq.iter().map(exec).collect()
+            })
+        }).collect();
+        for (t, h) in handles.into_iter().enumerate() {
+            match h.join() {
+                Ok(outs) => absorb(&mut run, outs, &format!("thread-{t}-of-{nthreads}")),
+                Err(_) => run.fail("sequence-thread-died", &format!("thread {t}"), "joins", "panicked outside catch"),
+            }
+        }
+    }
+
     // ------------------------------------------------------------ buckets (Path, Abstraction, Path)
     {
         let nb = if deep { 100_000 } else { 20_000 };
@@ -534,8 +772,8 @@ fn main() {
 
     run.exhaustive = deep;
     run.rule = format!(
-        "exhaustive: 52 cards (u8, u32); 1,326 pre-flop observations{}; fold, check, 4 x 65,536 chip actions (all i16), all draws of 0..3 cards (1+52+1,326+22,100); 15 edges and all 256 u8 codes, all 65,536 raises with 8-bit odds through u64; all paths of <= 2 edges; all 542 abstractions; all 23,474 within-street pairs of flop, turn, river. sampled: {} flop/turn/river observations each, {} paths of <= 16 edges, {} hands, {} buckets, plus decode of codes outside the image (panic fidelity). distinct = distinct (type, value) cases that went through the model line-diff",
+        "exhaustive: 52 cards (u8, u32); 1,326 pre-flop observations{}; fold, check, 4 x 65,536 chip actions (all i16), all draws of 0..3 cards (1+52+1,326+22,100); 15 edges and all 256 u8 codes, all 65,536 raises with 8-bit odds through u64; all paths of <= 2 edges; all 542 abstractions; all 23,474 within-street pairs of flop, turn, river. sampled: {} flop/turn/river observations each, {} paths of <= 16 edges, {} hands, {} buckets, plus decode of codes outside the image (panic fidelity); decode SEQUENCES on one thread and on 6 threads ({} families each of: a turn then every river child, children before parents, rivers differing in the lowest board card only, flop parents, other pockets on the same board, every code twice, interleaved with Street::from(i64) / Isomorphism::from(i64) and with action, path, abstraction and edge decodes in neighbouring-value order). distinct = distinct (type, value) cases that went through the model line-diff",
         if deep { "; all 25,989,600 flop observations (oracle; every 16th as a model line)" } else { "" },
-        if deep { 300_000 } else { 40_000 }, if deep { 300_000 } else { 50_000 }, nh, if deep { 100_000 } else { 20_000 });
+        if deep { 300_000 } else { 40_000 }, if deep { 300_000 } else { 50_000 }, nh, if deep { 100_000 } else { 20_000 }, if deep { 1500 } else { 120 });
     run.finish();
 }
